@@ -61,6 +61,66 @@ NEEDS2 = {
  "C19-4": "node owned by two functions whose exits are in the opposite order of their entries (entry/exit lists sorted separately)",
  "C19-5": "x30 and x31 in the same register set (x31 dropped from the dump)",
 }
+NEEDS3 = {
+ "C01-6": "sltiu rd, x0, imm with a negative immediate (folded with the signed formula)",
+ "C01-7": "sp loaded from another register's entry value (addi sp, s0, 0), stored through, restored, slot reloaded (stack_offset() without the base check)",
+ "C01-8": "sub sp, sp, tN with a known constant in tN (operands of the entry-value rule swapped)",
+ "C02-6": "conditional branch to a function label with a caller-saved register live on the fall-through path",
+ "C02-7": "callee whose result comes from an ecall or a nested call (returns() intersected with defs)",
+ "C02-8": "two exit ecalls: the termination pass returns after the first one it meets",
+ "C03-6": "unconditional jump to the very next line (its only edge is skipped)",
+ "C03-7": "exit ecall whose textual successor is a ret that is also reached another way (edge kept)",
+ "C03-8": "dead code that falls into other code (dead node keeps its successors)",
+ "C04-6": "frame allocated with li tN, c; sub sp, sp, tN",
+ "C04-7": "ecall whose result register is also an argument (sbrk)",
+ "C04-8": "function entry with two labels (alias, or a data label pending before the function) counted as two functions",
+ "C05-6": "first use of the offending register is a read-modify-write of that register",
+ "C05-7": "write to x0 without a source register: li zero, 4 / la zero, buf / lui zero, 1",
+ "C05-8": "violation on the path to a return other than the first (exit lost a predecessor)",
+ "C06-6": "known sp offset <= 0 plus a load/store offset whose sum leaves the i32 range (stack lint)",
+ "C06-7": "include cycle that does not go through the base file and is spelled ./b.s (never terminates)",
+ "C06-8": "pretty output, diagnostic on a short line indented with multi-byte whitespace",
+ "C07-6": "identical parse errors at the same position in the base file and an included file (dedup without the file)",
+ "C07-7": "stray non-ASCII character at the end of a line (eats the newline / start of the next line)",
+ "C07-8": "final line lw rd, imm / sw rs, imm / jalr rs, imm without newline",
+ "C08-6": "div/rem folding of i32::MIN / -1",
+ "C08-7": "jal t0, label: kill set empty although t0 is written",
+ "C08-8": "bleu expanded to the signed bge",
+ "C09-6": "file without trailing newline whose last token is a symbol (end one past the file)",
+ "C09-7": "j label / b label at offset 0 of a base or included file (range shrinks to the label)",
+ "C09-8": "CR LF file through the rva binary (raw offsets of the normalised text)",
+ "C10-6": "two equal reports with another report between them in emission order (dedup before sort)",
+ "C10-7": "two included files each with a stack problem (lint iterates files in uuid order and stops at the first)",
+ "C10-8": "--all-files in a text mode with two included files that have diagnostics (grouped in a HashMap)",
+ "C11-6": "handler installed with csrrw t0, utvec, t0 (rd == rs1)",
+ "C11-7": "callee containing an exit ecall followed by other code (functions marked before the edges are cut)",
+ "C11-8": "function that jumps into the tails of two other functions (foreign exit rewritten)",
+ "C12-6": "ecall whose a7 is 93 on the fall-through of an earlier exit and 10 on the other path (cut first, recompute after)",
+ "C12-7": "sw/lw through a CSR-held address where the load is also reached from the fall-through of an exit (skipped recomputation)",
+ "C12-8": "function with two or more returns in different branch arms (no position tie-break)",
+ "C13-6": "lui-built constant meeting the same constant built with li (immediate shifted twice)",
+ "C13-7": "jalr written with parentheses and no offset",
+ "C13-8": "-2147483648 / -0x80000000 (magnitude checked instead of the signed value)",
+ "C14-6": "entry with two labels owned by two functions, renaming that changes their alphabetical order",
+ "C14-7": "top-level code reading two unassigned registers in one instruction (only the last one's use reported)",
+ "C14-8": "x30 and x31 in one register set (iterator)",
+ "C15-6": "include depth 2 with the includer outside the base file's directory (resolved against the base file)",
+ "C15-7": "include cycle that returns under a different spelling (../main.s) through the CLI reader",
+ "C15-8": "two included files overwriting a callee-saved register at the identical position",
+ "C16-6": "duplicate label whose second definition has no instruction behind it / is adjacent to the first",
+ "C16-7": "undefined label used only by jal rd, label with rd other than zero/ra",
+ "C16-8": "jump or branch to a label at end of file or to a data label (generic error, nil file)",
+ "C17-6": "out-of-range or malformed literal in an operand slot that falls back to a label (lw/sw address, jal/branch target)",
+ "C17-7": "0B prefix (upper case) of a binary literal",
+ "C17-8": "lui/auipc operand 0x80000..0xFFFFF rejected, negative accepted",
+ "C18-6": "diagnostic on one-indexed line 10, 100, ... in pretty output",
+ "C18-7": "--all-files, more than 20 diagnostics, base file not first by name (unstable sort)",
+ "C18-8": "parse error plus a CFG error through the library entry point (parse errors dropped)",
+ "C19-6": "node owned by two functions whose exits are in the opposite order of their entries",
+ "C19-7": "CSR-relative memory location with a negative offset",
+ "C19-8": "x31 in any register set of the dump",
+}
+NEEDS2.update(NEEDS3)
 FIRST2_CAUGHT = {"C01-4", "C02-3", "C02-4", "C03-3", "C03-4", "C03-5", "C05-3", "C06-5", "C07-3", "C07-4", "C08-3", "C08-4", "C08-5",
                  "C10-3", "C10-4", "C10-5", "C11-3", "C11-4", "C11-5", "C12-5", "C13-4", "C13-5", "C14-3", "C15-3", "C15-5", "C16-3",
                  "C17-3", "C17-5", "C18-3", "C18-4", "C18-5", "C19-3", "C19-5"}
